@@ -25,6 +25,9 @@ theorem addPlacements_nodes_eq {bs : Nat} {to : List Key} : ∀ {as : List DiffO
 @[simp] theorem rebuild_bs (s : KState) (to : List Key) : (rebuild s to).bs = s.bs := rfl
 @[simp] theorem rebuild_marker (s : KState) (to : List Key) : (rebuild s to).marker = s.marker := rfl
 @[simp] theorem rebuild_hashed (s : KState) (to : List Key) : (rebuild s to).hashed = to := rfl
+@[simp] theorem rebuildWith_parent (D : List Key → List Key → Diff) (s : KState) (to : List Key) :
+    (rebuildWith D s to).parent = s.parent := rfl
+@[simp] theorem rebuild_parent (s : KState) (to : List Key) : (rebuild s to).parent = s.parent := rfl
 
 /-- every item stored after `rebuild` is an item stored before, or a freshly built block of `bs`
 consecutive ids at or above the old id counter; and the id counter does not decrease -/
@@ -34,11 +37,14 @@ theorem rebuildWith_items (D : List Key → List Key → Diff) (hD : DiffLike D)
       z ∈ somes s.w.storage ∨ ∃ n, s.w.next ≤ n ∧ z.nodes = List.range' n s.bs) ∧
     s.w.next ≤ (rebuildWith D s to).w.next := by
   have hw : ({ s.w with log := {} } : World).storage = (somes s.w.storage).map some := hs.all_some
+  -- storage and id counter do not depend on whether the list has a parent
+  obtain ⟨hsim1, hsim2, _⟩ := rebuildWith_sim D s to
+  rw [← hsim1, ← hsim2]
   by_cases hte : to = []
   · subst hte
     have sm := applyDiff_summary D hD s.hashed [] (somes s.w.storage) hs.nodup hto hs.keys s.bs s.marker
       { s.w with log := {} } hw rfl
-    have hnil : somes (rebuildWith D s []).w.storage = [] :=
+    have hnil : somes (applyDiff s.bs s.marker (D s.hashed []) [] { s.w with log := {} }).storage = [] :=
       List.eq_nil_of_length_eq_zero sm.len
     refine ⟨by rw [hnil]; simp, ?_⟩
     by_cases hfe : s.hashed = []
@@ -46,32 +52,30 @@ theorem rebuildWith_items (D : List Key → List Key → Diff) (hD : DiffLike D)
         have := hs.keys; rw [hfe] at this; simpa using this
       have hst : s.w.storage = [] := by rw [hs.all_some, ho]; rfl
       have hd : D s.hashed [] = {} := by rw [hfe]; exact hD.nil_nil
-      have : (rebuildWith D s []).w = { s.w with log := {} } := by
-        simp only [rebuildWith, hd]
+      have : applyDiff s.bs s.marker (D s.hashed []) [] { s.w with log := {} } = { s.w with log := {} } := by
+        rw [hd]
         simp [applyDiff, unpackMoves, unpackLoop, hst]
       rw [this]
       exact Nat.le_refl _
     · have hd : D s.hashed [] = { clear := true } := hD.to_nil _ hfe
-      have hwr : (rebuildWith D s []).w = clearPhase { s.w with log := {} } := by
-        simp only [rebuildWith, hd]; simp [applyDiff]
+      have hwr : applyDiff s.bs s.marker (D s.hashed []) [] { s.w with log := {} }
+          = clearPhase { s.w with log := {} } := by
+        rw [hd]; simp [applyDiff]
       rw [hwr, clearPhase_eq { s.w with log := {} } (somes s.w.storage) hw]
       exact Nat.le_refl _
   · obtain ⟨rem, U, ads, c, hn, _, heq⟩ := applyDiff_spec D hD s.hashed to (somes s.w.storage) hs.nodup hto
       hs.keys hte s.bs s.marker { s.w with log := {} } hw
-    have hwr : (rebuildWith D s to).w
-        = pipeline s.bs s.marker to rem U ads ads.length { s.w with log := {} } := heq
     have hcl := c.pipeline_closed hn s.bs s.marker { s.w with log := {} } hw
-    obtain ⟨hlen, hat⟩ := c.final_somes s.bs s.w.next
     have hfs := c.final_storage s.bs s.w.next
-    have hst : somes (rebuildWith D s to).w.storage = somes (storage7 (somes s.w.storage) rem U ads s.bs to s.w.next) := by
-      rw [hwr, hcl]; exact somes_filter_isSome _
-    refine ⟨?_, by rw [hwr, hcl]; exact Nat.le_add_right _ _⟩
+    rw [heq, hcl]
+    refine ⟨?_, Nat.le_add_right _ _⟩
     intro z hz
-    rw [hst] at hz
+    simp only [somes_filter_isSome] at hz hfs
     obtain ⟨j, hj⟩ := List.mem_iff_getElem?.mp hz
     have hjlt : j < to.length := by
-      have := (List.getElem?_eq_some_iff.mp hj).1; omega
-    simp only [somes_filter_isSome] at hfs
+      have := (List.getElem?_eq_some_iff.mp hj).1
+      have := hfs.2.1
+      omega
     obtain ⟨it, hit, _, hold', hnew'⟩ := hfs.2.2 j to[j] (List.getElem?_eq_getElem hjlt)
     rw [hj] at hit
     simp only [Option.some.injEq] at hit
@@ -123,6 +127,6 @@ theorem Wf.raise_next {s : KState} (h : Wf s) (n : Nat) : Wf { s with w := { s.w
 /-- (3c) `Mounted` survives raising the id counter -/
 theorem Mounted.raise_next {pre post : List NodeId} {s : KState} (h : Mounted pre post s) {n : Nat}
     (hn : s.w.next ≤ n) : Mounted pre post { s with w := { s.w with next := n } } :=
-  ⟨h.ordered, h.nodup, h.nonempty, fun x hx => Nat.lt_of_lt_of_le (h.fresh x hx) hn, h.bs_pos⟩
+  ⟨h.ordered, h.nodup, h.nonempty, fun x hx => Nat.lt_of_lt_of_le (h.fresh x hx) hn, h.bs_pos, h.has_parent⟩
 
 end Leptos.Keyed
